@@ -124,7 +124,13 @@ def validate(seed, tier):
         edges = [[int(u), int(v)] for u in range(nu) for v in range(nv) if rng.random() < 0.4]
         runner.concrete_check('bipartite', dict(nu=nu, nv=nv, edges=edges))
         n += 1
-    return dict(random_graphs_checked_concretely=n)
+    # vertex counts beyond 2^16 on either side (index arithmetic; far outside the exhaustive bound, sampled on the real code)
+    for (nu, nv, edges) in ((3, 70000, [(0, 65536), (1, 0)]), (3, 70000, [(0, 65537), (1, 1), (2, 65536), (1, 65536)]),
+                            (70000, 3, [(65536, 0), (1, 0), (65537, 1), (0, 2)]), (66000, 66000, [(65536, 0), (65535, 65536), (0, 65537)]),
+                            (2, 131073, [(0, 131072), (1, 65536), (0, 1)])):
+        runner.concrete_check('bipartite', dict(nu=nu, nv=nv, edges=[list(e) for e in edges]))
+        n += 1
+    return dict(random_graphs_checked_concretely=n, of_which_with_more_than_65536_vertices_on_a_side=5)
 
 
 def evidence(tier, seed, total, per_task, val):
